@@ -257,6 +257,7 @@ type fworld struct {
 	nextPl int
 	shape  string
 	forked bool
+	stag   bool
 }
 
 func fSortFn(k string) iface.EntrySortFn {
@@ -330,8 +331,13 @@ func (w *fworld) als(es []iface.IPFSLogEntry) []string {
 	return out
 }
 
-func (w *fworld) newReplica(writer, sk string) {
-	l, err := ipfslog.NewLog(w.api, w.ids.Identity(writer), &ipfslog.LogOptions{ID: "X", SortFn: fSortFn(sk)})
+func (w *fworld) newReplica(writer, sk string, clock0 int) {
+	lo := &ipfslog.LogOptions{ID: "X", SortFn: fSortFn(sk)}
+	if clock0 > 0 {
+		// a writer whose clock is ahead of its history: the clock times of the stored log are sparse
+		lo.Clock = entry.NewLamportClock(w.ids.Identity(writer).PublicKey, clock0)
+	}
+	l, err := ipfslog.NewLog(w.api, w.ids.Identity(writer), lo)
 	if err != nil {
 		panic(err)
 	}
@@ -391,14 +397,43 @@ func runFetch(seed int64, nCases int, out *bufio.Writer, thorough bool) *fetchSt
 		sk := []string{"lww", "lww", "hash"}[r.Intn(3)]
 		fmt.Fprintf(out, "H %d %d sort=%s\n", h, hs, sk)
 		nRep := 2 + r.Intn(3)
-		for i := 0; i < nRep; i++ {
-			w.newReplica(fmt.Sprintf("w%d", i), sk)
+		sparse := r.Intn(3) == 0
+		// every fourth case is STAGGERED: three or four writers whose clocks start far apart write runs of
+		// different lengths and are merged into one log with as many heads; the operations are then
+		// length-limited loads from all heads with small limits under controlled arrival orders
+		stag := h%4 == 2
+		if stag {
+			nRep = 3 + r.Intn(2)
 		}
+		offs := []int{0, 4 + r.Intn(6), 12 + r.Intn(8), 25 + r.Intn(10)}
+		r.Shuffle(len(offs), func(a, b int) { offs[a], offs[b] = offs[b], offs[a] })
+		for i := 0; i < nRep; i++ {
+			c0 := 0
+			if sparse && r.Intn(2) == 0 {
+				c0 = 3 + r.Intn(20)
+			}
+			if stag {
+				c0 = offs[i]
+			}
+			w.newReplica(fmt.Sprintf("w%d", i), sk, c0)
+		}
+		w.stag = stag
 		nBuild := 6 + r.Intn(14)
 		if thorough {
 			nBuild = 6 + r.Intn(30)
 		}
 		pcs := []int{1, 1, 2, 3, 4, 4, 8, 16}
+		if stag {
+			nBuild = 0
+			for i := 0; i < nRep; i++ {
+				for k := 1 + r.Intn(5); k > 0; k-- {
+					w.doAppend(i, pcs[r.Intn(len(pcs))])
+				}
+			}
+			for j := 1; j < nRep; j++ {
+				w.doJoin(0, j)
+			}
+		}
 		for k := 0; k < nBuild; k++ {
 			i := r.Intn(nRep)
 			if r.Intn(100) < 70 {
@@ -407,7 +442,7 @@ func runFetch(seed int64, nCases int, out *bufio.Writer, thorough bool) *fetchSt
 				w.doJoin(i, r.Intn(nRep))
 			}
 		}
-		if r.Intn(3) != 0 { // merge everything into replica 0 and continue there
+		if !stag && r.Intn(3) != 0 { // merge everything into replica 0 and continue there
 			for j := 1; j < nRep; j++ {
 				w.doJoin(0, j)
 			}
@@ -438,6 +473,9 @@ func runFetch(seed int64, nCases int, out *bufio.Writer, thorough bool) *fetchSt
 			continue
 		}
 		nOps := 5 + r.Intn(4)
+		if stag {
+			nOps = 10
+		}
 		shape := w.shape
 		for op := 0; op < nOps; op++ {
 			shape += runFetchOp(w, r, st, op, all, sk)
@@ -457,6 +495,10 @@ func runFetchOp(w *fworld, r *rand.Rand, st *fetchStats, op int, all []iface.IPF
 	out := w.out
 	kind := []string{"fa", "fa", "fa", "mh", "eh", "json", "ent"}[r.Intn(7)]
 	src := r.Intn(len(w.reps))
+	if w.stag {
+		kind = []string{"mh", "mh", "json", "json", "ent", "fa"}[r.Intn(6)]
+		src = 0
+	}
 	for tries := 0; tries < 8 && w.reps[src].Len() == 0; tries++ {
 		src = r.Intn(len(w.reps))
 	}
@@ -474,6 +516,10 @@ func runFetchOp(w *fworld, r *rand.Rand, st *fetchStats, op int, all []iface.IPF
 	}
 	conc := []int{1, 2, 4, 32}[r.Intn(4)]
 	mode := []string{"gated", "gated", "gated", "free", "free", "stall"}[r.Intn(6)]
+	if w.stag {
+		n = 1 + r.Intn(len(w.reps)+3)
+		mode = "gated"
+	}
 
 	// roots
 	var roots []cid.Cid
